@@ -117,7 +117,7 @@ def _r062(ck, prog, cfg):
         f = prog.one(name)
         short = name.replace(ACT, "")
         # in run, only the ApplyRecoveredState arm re-materialises; the Execute arm returns the result to the client
-        for b, t in f.calls():
+        for b, t in sorted(f.calls(), key=lambda x: (x[1].get("ln") or 0, x[0])):
             if not is_callee(t, r"CommandExecutor::execute$"):
                 continue
             if short.startswith("run"):
@@ -148,16 +148,16 @@ def _r062(ck, prog, cfg):
                 def _nm(a):
                     return callee(a.term).rsplit("::", 1)[-1] if a.kind == "call" else (a.rv["n"].rsplit("::", 1)[-1] if a.kind == "agg" else a.path())
                 if alts and not bad_alts:
-                    ck.ok("R06.2", "%s:execute(%s)#%d%s" % (short, "|".join(sorted(_nm(a) for a in alts)), _ordx(f, b), _tag(cfg)), "no alternative can fail")
+                    ck.ok("R06.2", "%s:execute(%s)#%d%s" % (short, "|".join(sorted(_nm(a) for a in alts)), _ordx(f, b, "|".join(sorted(_nm(a) for a in alts))), _tag(cfg)), "no alternative can fail")
                     continue
                 if bad_alts:
                     what = "|".join(sorted(_nm(a) for a in bad_alts))
                     cmd = bad_alts[0]
             fallible, why = _can_fail(prog, f, cmd)
             if not fallible:
-                ck.ok("R06.2", "%s:execute(%s)#%d%s" % (short, what, _ordx(f, b), _tag(cfg)), "cannot fail: " + why)
+                ck.ok("R06.2", "%s:execute(%s)#%d%s" % (short, what, _ordx(f, b, what), _tag(cfg)), "cannot fail: " + why)
                 continue
-            ck.check(lib2.dest_used(f, b), "R06.2", "%s:execute(%s)#%d%s" % (short, what, _ordx(f, b), _tag(cfg)),
+            ck.check(lib2.dest_used(f, b), "R06.2", "%s:execute(%s)#%d%s" % (short, what, _ordx(f, b, what), _tag(cfg)),
                      "the reply of the command that pushes merged replication state into the executor is thrown away: when it fails "
                      "(type change on the key -> WRONGTYPE; SETEX with 0 seconds) the node keeps serving what its replication state does "
                      "not say", f.where(t["ln"]), detail="result inspected")
@@ -232,9 +232,17 @@ def _can_fail(prog, f, cmd):
     return False, "Command::%s built with %s: none of the %d error sites of %s is reachable" % (vn, consts or "no fixed options", total, [h.short for h in hs])
 
 
-def _ordx(f, b):
-    sites = sorted(bb for bb, t in f.calls() if is_callee(t, r"CommandExecutor::execute$"))
-    return sites.index(b)
+_ordx_seen = {}
+
+
+def _ordx(f, b, what=None):
+    """ordinal of this re-materialising call among the calls of the same function that push the same kind of command (by source
+    line): stable when other calls are added, merged or moved into helpers"""
+    key = (id(f), what)
+    seen = _ordx_seen.setdefault(key, [])
+    if b not in seen:
+        seen.append(b)
+    return seen.index(b)
 
 
 def _r063(ck, prog, cfg):
